@@ -8,6 +8,7 @@ import time
 
 from . import env
 from .pool import Pool, sweep_stale
+from .prng import splitmix64
 
 DEFAULT_SEED = 20260921
 
@@ -56,12 +57,24 @@ class Collector(object):
         self.sim_time = 0.0
         self.extra = {}
         self.exhaustive = None
+        self.det_sample = []        # (case, digest) reservoir for the determinism self-test
+        self.det_limit = 16 if tier == 'quick' else 96
+        self._det_seen = 0
 
     def add(self, case, res):
         self.evaluations += 1
         if 'harness_error' in res:
             self.harness_errors.append((case, res['harness_error']))
             return
+        if res.get('digest') is not None and not case.get('isolate'):
+            self._det_seen += 1
+            if len(self.det_sample) < self.det_limit:
+                self.det_sample.append((strip_case(case), res['digest']))
+            else:
+                # deterministic reservoir: replace slot by a hash of the running count
+                j = splitmix64(self._det_seen) % self._det_seen
+                if j < self.det_limit:
+                    self.det_sample[j] = (strip_case(case), res['digest'])
         sig = res.get('sig')
         if sig is None:
             sig = hsh(dict((k, v) for k, v in case.items() if k not in ('_i', 'timeout')))
@@ -110,6 +123,29 @@ def confirm_fresh(case, key, prop, tries=1):
             if v.get('prop') == prop and v['key'] == key:
                 return True, res
     return False, res
+
+
+def determinism_selftest(col):
+    """Re-run a sample of this batch's cases in brand-new workers under another string-hash
+    seed, without setarch, at another worker count, and compare full event-log digests."""
+    sample = col.det_sample
+    if not sample:
+        return {'pairs': 0, 'mismatches': 0}, []
+    mismatches = []
+    pairs = 0
+    configs = [dict(workers=3, hashseed='1', use_setarch=False), dict(workers=2, hashseed='0', use_setarch=True)]
+    for ci, cfg in enumerate(configs):
+        part = sample[ci::len(configs)]
+        if not part:
+            continue
+        with Pool(tag='%d.d%d' % (os.getpid(), ci), **cfg) as p:
+            results = p.map([dict(c) for c, _ in part])
+        for (c, d), r in zip(part, results):
+            pairs += 1
+            if r.get('digest') != d:
+                mismatches.append((c, d, r.get('digest'), r.get('harness_error')))
+    return {'pairs': pairs, 'mismatches': len(mismatches),
+            'configs': ['PYTHONHASHSEED=1, no setarch, 3 workers', 'PYTHONHASHSEED=0, setarch -R, 2 workers']}, mismatches
 
 
 def minimise(pool, engine_mod, case, key, prop, budget_runs=400, budget_s=60):
@@ -189,8 +225,10 @@ def finish(col, pool, engine_mod_for, coverage_extra=None, assumptions=None, com
             continue
         path = write_replay(prop, key, small, v.get('detail', ''), col.seed, runs)
         reported.append((key, path, v))
+    det, det_mismatches = determinism_selftest(col)
     wall = col.wall()
     cov = {
+        'determinism': det,
         'evaluations': col.evaluations,
         'distinct_nontrivial': len(col.nontrivial_sigs),
         'distinct_cases': len(col.sigs),
@@ -230,6 +268,11 @@ def finish(col, pool, engine_mod_for, coverage_extra=None, assumptions=None, com
         print('HARNESS-ERROR: %d run(s) failed inside the harness; first: %s'
               % (len(col.harness_errors), col.harness_errors[0][1][-1500:]))
         print('  case: %s' % json.dumps(strip_case(col.harness_errors[0][0]), sort_keys=True)[:1500])
+        rc = 2
+    for c, d1, d2, he in det_mismatches[:3]:
+        print('HARNESS-ERROR nondeterministic: digest %s in the batch, %s in a fresh worker%s'
+              % (d1, d2, ' (harness error: %s)' % he[-500:] if he else ''))
+        print('  case: %s' % json.dumps(c, sort_keys=True)[:1500])
         rc = 2
     for key, case, v in nondeterministic:
         print('HARNESS-ERROR nondeterministic: violation %s did not reproduce in a fresh process (%s)'
